@@ -60,6 +60,8 @@ def run(ctx: Context) -> None:
     from . import c13
     from .common import share_obligations
     share_obligations(ctx, c13, {'R13.3', 'R13.4', 'R13.5'}, 'R12.5')
+    from .common import iterable_param_obligations
+    iterable_param_obligations(ctx, 'R12.1', of)
 
     # ---- R12.2 the reducer
     with ctx.section('R12.2 the reducer'):
